@@ -181,7 +181,7 @@ pub fn judge(case: &Case) -> Verdict {
     }
 }
 
-fn hands_space(ctx: &Ctx, rep: &mut Report, n: usize, orders: &[Vec<usize>]) {
+fn hands_space(ctx: &Ctx, rep: &mut Report, n: usize, orders: &[Vec<usize>], lean: bool) {
     let o = oracle();
     let e = expect();
     let d = deck();
@@ -217,8 +217,8 @@ fn hands_space(ctx: &Ctx, rep: &mut Report, n: usize, orders: &[Vec<usize>]) {
                 let w64: Vec<u64> = arr.iter().map(|x| *x as u64).collect();
                 monitor::beat(kind, &w64);
                 acc.cases += 1;
-                acc.calls += 2;
-                let ok = match guard(|| (rank_of("hand_rank", &arr), rank_of("hand_rank_validated", &arr))) {
+                acc.calls += if lean { 1 } else { 2 };
+                let ok = match guard(|| (rank_of("hand_rank", &arr), if lean { None.or(rank_of("hand_rank", &arr)) } else { rank_of("hand_rank_validated", &arr) })) {
                     Ok((Some(h1), Some(h2))) => h1.value == ord && Some(h1.name) == en && Some(h1.class) == ec && h1 == h2,
                     _ => false,
                 };
@@ -299,13 +299,29 @@ pub fn run(ctx: &Ctx, rep: &mut Report) {
     }
     // (3) hands
     let ident5: Vec<Vec<usize>> = vec![(0..5).collect(), (0..5).rev().collect()];
-    hands_space(ctx, rep, 5, &ident5);
-    hands_space(ctx, rep, 6, &[(0..6).rev().collect()]);
+    hands_space(ctx, rep, 5, &ident5, false);
+    hands_space(ctx, rep, 6, &[(0..6).rev().collect()], false);
     if ctx.tier.thorough() {
-        hands_space(ctx, rep, 6, &[(0..6).collect()]);
-        hands_space(ctx, rep, 7, &[(0..7).collect(), (0..7).rev().collect()]);
+        hands_space(ctx, rep, 6, &[(0..6).collect()], false);
+        hands_space(ctx, rep, 7, &[(0..7).collect(), (0..7).rev().collect()], false);
+    } else {
+        // quick: every seven-card hand once, through hand_rank() only
+        hands_space(ctx, rep, 7, &[(0..7).collect()], true);
+    }
+    {
+        let mut items: Vec<Case> = [0u64, 1, 2, 10, 11, 166, 167, 322, 323, 1599, 1600, 1609, 1610, 2467, 2468, 3325, 3326, 6185, 6186, 7462, 7463, 7464, 65535].iter().map(|v| Case::new("value", &[*v])).collect();
+        let d = deck();
+        for k in 0..12usize {
+            for n in 5..=7usize {
+                let w: Vec<u32> = (0..n).map(|i| d[(k * 4 + i * (k % 3 + 1)) % 52].word()).collect();
+                if super::c01::distinct_cards(&w).is_some() {
+                    items.push(Case::w32(&format!("{}.hand_rank", AnyHand::size_name(n)), &w));
+                }
+            }
+        }
+        super::history2(rep, judge, &items);
     }
     rep.rule = "distinct values, distinct class variants, distinct (hand, order) pairs; non-trivial = values 1..=7462 (each must name one specific class), every variant, every hand".into();
-    rep.bound = if ctx.tier.thorough() { "values and variants complete; five-, six- (2 orders) and seven-card hands (canonical order) complete".into() } else { "values and variants complete; all five-card hands in two orders".into() };
+    rep.bound = if ctx.tier.thorough() { "values and variants complete; all five-, six- and seven-card hands in two slot orders, both entry points".into() } else { "values and variants complete; all five-card hands in two orders, all six-card hands reversed, all seven-card hands in canonical order (hand_rank only)".into() };
     rep.assume("expected Debug text is generated from the crate's published vocabulary (Four{Plural}, {Plural}Over{Plural}, {Singular}HighFlush, {Plural}And{Plural}, PairOf{Plural}, {Singular}High, RoyalFlush, ...)");
 }
